@@ -7,7 +7,7 @@ from ..core import write_traces
 from ..env import BUILD, MachineryError
 from .. import tlc as T
 
-C05_INV = {"Numeric", "NlExact", "SamplesGenuine", "RowsExact", "StatsExact", "StatsWithControls"}
+C05_INV = {"Numeric", "NoEmptyLevel", "NlExact", "SamplesGenuine", "RowsExact", "StatsExact", "StatsWithControls"}
 C06_INV = {"LevelBound", "ExitOnCriteria", "AllocationMet", "FixedShape"}
 
 
